@@ -165,6 +165,10 @@ def cases_sequences(tier):
     for st in ([], ["a"], ["a", "b"]) + ((["b", "a"], ["a", "b", "d"], ["d", "b", "a"]) if tier == "thorough" else ()):
         for prio in (False, True):
             yield "state=%s/then-add-%s" % (",".join(st), "prioritized" if prio else "appended"), {"state": st, "prio": prio}
+    # names on which str.lower and str.casefold (or other normalisations) differ: registration and lookup must normalise alike,
+    # so a plug-in is always found under exactly the name it was registered with
+    for name in ("ma\u00dfe", "\u0130b", "\ufb01x", "STRASSE"):
+        yield "state=a/then-add-%s" % name.encode("ascii", "backslashreplace").decode(), {"state": ["a"], "prio": False, "name": name}
 
 
 def _spec_lookup(T, view, method):
@@ -193,13 +197,26 @@ def scn_sequences(T, case):
             return None, mgr.is_supported("optimizer", method)
 
     first, sup1 = lookup()
-    mgr.add_plugin("optimizer", "New", new, prioritize=case["prio"])
+    regname = case.get("name", "New")
+    mgr.add_plugin("optimizer", regname, new, prioritize=case["prio"])
     second, sup2 = lookup()
     explicit_ok = True
     try:
-        got = mgr.get_plugin("optimizer", "NEW/" + method)
+        got = mgr.get_plugin("optimizer", (regname.upper() if regname.isascii() else regname) + "/" + method)
     except ConfigError:
         got = None
+    if not regname.isascii():
+        try:
+            got_lower = mgr.get_plugin("optimizer", regname.lower() + "/" + method)
+        except ConfigError:
+            got_lower = None
+        T.prove("C19.sequence.lookup_under_the_registered_name_and_its_lower_case_agree", got_lower is got)
+        try:
+            mgr.add_plugin("optimizer", regname, FakePlugin(T, "again", log))
+            dup_rejected = False
+        except ConfigError:
+            dup_rejected = True
+        T.prove("C19.sequence.registering_the_same_name_again_is_rejected", dup_rejected)
     for tag, res, sup, view in (("before", first, sup1, [(n, plugs[n]) for n in case["state"]]),
                                ("after", second, sup2, ([("new", new)] + [(n, plugs[n]) for n in case["state"]]) if case["prio"] else ([(n, plugs[n]) for n in case["state"]] + [("new", new)]))):
         conds = _spec_lookup(T, view, method)
